@@ -311,6 +311,42 @@ func checkC13(p *Prog, r *Report) {
 	chk("compare-diff-lists", fmt.Sprintf("compare constant for changed %q is a reader case clearing the device policy (outcome %q)", cDiff, cases["Compare"][cDiff]),
 		cDiff != "" && cDiff != cSame && cases["Compare"][cDiff] == `const ""`, "a compare that found differences does not make missing-approve list the device")
 	chk("compare-guarded-by-time", "the compare slot is consulted only if Compare.Time is later than the accepted approve time", guardedByTime && nCompareCases >= 2, "an old compare overrides a later approve")
+	// R13.6: no verdict before the compare slot was considered
+	r.rule("R13.6", "In the reader every return that omits the device (does not print it) is dominated by the test that consults the compare slot (accepted approve time < Compare.Time): the device is never declared up to date on the strength of the approve slot alone, because a later compare may have found a difference (manual drift).")
+	var guardBlock *ssa.BasicBlock
+	for _, b := range reader.Blocks {
+		i := ifOf(b)
+		if i == nil {
+			continue
+		}
+		c2, _ := stripNot(i.Cond)
+		if bb, ok := c2.(*ssa.BinOp); ok && (bb.Op == token.LSS || bb.Op == token.GTR) {
+			fx, fy := loadedFieldPath(bb.X), loadedFieldPath(bb.Y)
+			if (len(fx) == 2 && fx[0] == "Compare" && fx[1] == "Time") || (len(fy) == 2 && fy[0] == "Compare" && fy[1] == "Time") {
+				guardBlock = b
+			}
+		}
+	}
+	if guardBlock == nil {
+		r.fail("R13.6", "anchor|compare-consult", p.pos(reader.Pos()), "the reader has no test of Compare.Time", "")
+	} else {
+		nret := 0
+		for _, ret := range returnsOf(reader) {
+			prints := false
+			for _, in := range ret.Block().Instrs {
+				if c3, ok := in.(*ssa.Call); ok && c3.Common().StaticCallee() != nil && strings.HasPrefix(shortName(c3.Common().StaticCallee()), "fmt.Print") {
+					prints = true
+				}
+			}
+			if prints {
+				continue
+			}
+			nret++
+			r.add("R13.6", "omit-after-compare-consult", p.ipos(ret), "a return that omits the device comes after the compare slot was consulted", guardBlock.Dominates(ret.Block()),
+				"the device is omitted without looking at a later compare result: manual drift found by compare is forgotten")
+		}
+		r.floor("R13.6", "omitting returns in the reader", nret, 2)
+	}
 	// sticky test in the writer
 	sticky := ""
 	var wfn *ssa.Function
